@@ -553,8 +553,12 @@ impl ProcessorSetBuilder {
                         "we picked an existing key from an existing HashSet - the values must exist",
                     );
 
-                    // There might not be enough to fill the request, which is fine.
-                    let choose_count = count.min(processors_in_region.len());
+                    // We only take as many as are still missing. There might not be enough
+                    // in this region to fill the request, which is fine.
+                    let remaining_count = count
+                        .checked_sub(processors.len())
+                        .expect("the loop only continues while we have fewer than `count`");
+                    let choose_count = remaining_count.min(processors_in_region.len());
 
                     let region_processors = processors_in_region
                         .sample(&mut rng(), choose_count)
